@@ -224,8 +224,12 @@ def r_reply_exhaustive(ctx):
                           instance='reset handled')
     # every reply refreshes lastResponseTime
     lrt = [U.node_containing(cfg, a.node).id for a in P.accesses(h) if a.attr == R.lastResponseTime and a.kind == 'elem_write']
-    # region with LEADER state: start from the true edge of the next_node_idx test
-    reach = cfg.reachable_from(entry, avoid=lrt, follow_exc=False)
+    # a reply handled as leader: feasible paths from the true edge of the next_node_idx test under state == LEADER
+    from ..facts import const_term
+    lead_init = frozenset([('eq', ex.tb.term(U.parse_expr("%s['type']" % msg)), const_term('next_node_idx')),
+                           U.goal(ex, 'self.%s == %s.LEADER' % (R.raftState, R.state_class))])
+    r_lead = ex.run(start=entry, init=lead_init, avoid=lrt, follow_exc=False)
+    reach = set([cfg.exit.id]) if r_lead.reached(cfg.exit.id) else set()
     inst = 'every reply refreshes the last response time'
     ctx.tick()
     if not lrt:
